@@ -265,3 +265,69 @@ Proof.
         simpl. rewrite nth_error_app2 by lia. replace (length l2 - length l2)%nat with 0%nat by lia. reflexivity.
       * rewrite nth_error_app2 by lia. replace (length l1 - length l1)%nat with 0%nat by lia. reflexivity.
 Qed.
+
+Lemma two_of_perm_char ds a b : two_of ds a b <-> exists m, Permutation ds (a :: b :: m).
+Proof.
+  split.
+  - intros T. apply two_of_split in T. destruct T as (l1 & l2 & l3 & [->| ->]).
+    + exists (l1 ++ l2 ++ l3). apply Permutation_sym. apply Permutation_cons_app.
+      rewrite (app_assoc l1 l2 (b :: l3)). apply Permutation_cons_app. rewrite <- app_assoc. reflexivity.
+    + exists (l1 ++ l2 ++ l3). apply Permutation_sym. eapply perm_trans; [apply perm_swap|].
+      apply Permutation_cons_app. rewrite (app_assoc l1 l2 (a :: l3)). apply Permutation_cons_app. rewrite <- app_assoc. reflexivity.
+  - intros (m & Pm). assert (In a ds) as Ia by (eapply Permutation_in; [apply Permutation_sym; exact Pm|left; reflexivity]).
+    apply in_split in Ia. destruct Ia as (l1 & r & ->).
+    assert (Permutation (b :: m) (l1 ++ r)) as P2 by (apply Permutation_cons_app_inv with (a := a); apply Permutation_sym; exact Pm).
+    assert (In b (l1 ++ r)) as Ib by (eapply Permutation_in; [exact P2|left; reflexivity]).
+    apply two_of_split. apply in_app_or in Ib. destruct Ib as [Ib|Ib]; apply in_split in Ib; destruct Ib as (x & y & ->).
+    + exists x, y, r. right. rewrite <- app_assoc. reflexivity.
+    + exists l1, x, y. left. reflexivity.
+Qed.
+
+Lemma two_of_perm ds ds' a b : Permutation ds ds' -> two_of ds a b -> two_of ds' a b.
+Proof.
+  intros Pm T. apply two_of_perm_char in T. destruct T as (m & T). apply two_of_perm_char. exists m.
+  eapply perm_trans; [apply Permutation_sym; exact Pm|exact T].
+Qed.
+
+Lemma bool_eq_iff (x y : bool) : (x = true <-> y = true) -> x = y.
+Proof. destruct x, y; intros [H1 H2]; try reflexivity; [symmetry; apply H1; reflexivity|apply H2; reflexivity]. Qed.
+
+Lemma check_minor_perm ds ds' : Permutation ds ds' -> check_minor ds = check_minor ds'.
+Proof.
+  intros Pm. apply bool_eq_iff. rewrite !check_minor_spec. unfold VersionsUnique, MinorsConform.
+  assert (forall l l', Permutation l l' ->
+            ((forall a b, two_of l a b -> same_series a b -> minor a <> minor b) /\
+             (forall a b, In a l -> In b l -> same_series a b -> minor a <> minor b -> compatible a b)) ->
+            ((forall a b, two_of l' a b -> same_series a b -> minor a <> minor b) /\
+             (forall a b, In a l' -> In b l' -> same_series a b -> minor a <> minor b -> compatible a b))) as K.
+  { intros l l' Q [U C]. split.
+    - intros a b T. apply U. eapply two_of_perm; [apply Permutation_sym; exact Q|exact T].
+    - intros a b Ia Ib. apply C; eapply Permutation_in; try (apply Permutation_sym; exact Q); assumption. }
+  split; apply K; [exact Pm|apply Permutation_sym; exact Pm].
+Qed.
+
+Lemma check_ports_perm ds ds' : Permutation ds ds' -> check_ports ds = check_ports ds'.
+Proof.
+  intros Pm. apply bool_eq_iff. unfold check_ports.
+  assert (forall l l', Permutation l l' ->
+            forallb (fun a => forallb (fun b => negb (port_collision a b)) l) l = true ->
+            forallb (fun a => forallb (fun b => negb (port_collision a b)) l') l' = true) as K.
+  { intros l l' Q H. rewrite forallb_forall in *. intros a Ia. rewrite forallb_forall. intros b Ib.
+    assert (In a l) as Ia' by (eapply Permutation_in; [apply Permutation_sym; exact Q|exact Ia]).
+    assert (In b l) as Ib' by (eapply Permutation_in; [apply Permutation_sym; exact Q|exact Ib]).
+    specialize (H a Ia'). rewrite forallb_forall in H. exact (H b Ib'). }
+  split; apply K; [exact Pm|apply Permutation_sym; exact Pm].
+Qed.
+
+(* the verdict does not depend on the order in which the definitions are listed *)
+Lemma run_perm d d' t t' : Permutation d d' -> Permutation t t' -> run d t = run d' t'.
+Proof.
+  intros Pd Pt. unfold run, accept. rewrite (check_ports_perm d d' Pd).
+  rewrite (check_minor_perm (t ++ d) (t' ++ d')); [reflexivity|apply Permutation_app; assumption].
+Qed.
+
+(* definitions that are neither read directly nor reached cannot turn an accepted set into a rejected one through
+   the port rule: the port check looks at `direct` only *)
+Lemma accept_transitive_ports_ignored d t :
+  accept d t = check_ports d && check_minor (t ++ d).
+Proof. reflexivity. Qed.
